@@ -1,3 +1,759 @@
-import DepsDev.Model.Resolve.Maven
+import DepsDev.Proofs.C07Prov
+import DepsDev.Proofs.C07Tree
+import DepsDev.Proofs.C07Account
+import DepsDev.Proofs.C07Nearest
+import DepsDev.Proofs.C07Unique
+import DepsDev.Proofs.C07Fuel
+
+/-!
+# C07 — a Maven resolution graph obeys Maven's mediation rules
+
+Statements about `DepsDev.Resolve.Maven.Resolve`, the model of
+`util/resolve/maven/resolve.go` (see `Model/Resolve/Maven.lean` for the boundary: the
+client's answers, including everything about requirement strings, are data of the
+`Universe`). Every theorem is for ALL universes, roots and fuel values: "if the model
+returns a graph, then …"; `resolve_terminates` shows that with the driver's fuel it always
+returns a graph or an error. The graph is `s.g` of the returned final `State s`; `s.done`,
+`s.created` and `s.requirements` are the popped todo elements, the creating edges and
+the accumulated requirement lists at the end of the last pass (ghost observations of the
+run, never read by the algorithm).
+
+Full statements first (`M1` … as `Bool`/`Prop` definitions), then what is proved:
+
+* proved in full: M3, M4 (both halves), M5, M6 (local and path form), M7, M8, reachability,
+  the spanning tree of creating edges, M2 relative to the accumulated requirement lists;
+* `m1_partial` under `DefaultKeys` (refutation `m1_false` from the F-C07-classifier witness);
+* `m2_nearest_partial` under `FirstPass` (refutation `m2_false` from the F-C07-stale-req witness).
+-/
+
 namespace DepsDev.Props.C07
+open DepsDev DepsDev.Resolve.Maven DepsDev.Gen
+
+/-! ## Vocabulary -/
+
+/-- The model returned the final state `s` after `passes` passes (for some fuel). -/
+def Returned (u : Universe) (root : VK) (s : State) (passes : Nat) : Prop :=
+  ∃ fuel, Resolve u root fuel = .graph s passes
+
+/-- Artifact key of an edge: name of its target node, classifier and type of its dependency type. -/
+def edgeKey (s : State) (e : Edge) : Option PackageKey :=
+  (s.g.vkAt e.dst).map fun v => packageKeyForDependency v.name e.typ
+
+/-- Version string of node `i`. -/
+def versionAt (s : State) (i : Nat) : Option Bytes := (s.g.vkAt i).map (·.version)
+
+/-- Reachability from the root along edges. -/
+inductive Reach (g : Graph) : Nat → Prop
+  | root : Reach g 0
+  | step {a : Nat} {e : Edge} : Reach g a → e ∈ g.edges → e.src = a → Reach g e.dst
+
+theorem nodup_getElem_inj {α : Type} {l : List α} (h : l.Nodup) {i j : Nat} (hi : i < l.length) (hj : j < l.length)
+    (heq : l[i] = l[j]) : i = j := by
+  rcases Nat.lt_trichotomy i j with hlt | rfl | hgt
+  · exact absurd heq ((List.pairwise_iff_getElem.mp h) i j hi hj hlt)
+  · rfl
+  · exact absurd heq.symm ((List.pairwise_iff_getElem.mp h) j i hj hi hgt)
+
+/-! ## The pass that produced a returned graph -/
+
+theorem retry_graph {u : Universe} {root : VK} {fuel : Nat} :
+    ∀ (n : Nat) (reqs : ReqMap) (passes : Nat) (s : State) (p : Nat),
+      retry u root fuel n reqs passes = .graph s p →
+      passes < p ∧ ∃ reqs0, resolveOnce u root reqs0 fuel = .ok (some s) ∧ (p = passes + 1 → reqs0 = reqs) := by
+  intro n
+  induction n with
+  | zero =>
+    intro reqs passes s p h
+    unfold retry at h
+    split at h
+    · rename_i s' hs; cases h; exact ⟨by omega, reqs, hs, fun _ => rfl⟩
+    · cases h
+    · cases h
+    · cases h
+  | succ n ih =>
+    intro reqs passes s p h
+    unfold retry at h
+    split at h
+    · rename_i s' hs; cases h; exact ⟨by omega, reqs, hs, fun _ => rfl⟩
+    · cases h
+    · obtain ⟨hlt, reqs0, h0, _⟩ := ih _ _ _ _ h
+      exact ⟨by omega, reqs0, h0, fun hp => by omega⟩
+    · cases h
+
+/-- A returned graph is the final state of one pass of the breadth-first loop started from
+`initState`; with `passes = 1` that pass started with an empty requirements map. -/
+theorem returned_pass {u : Universe} {root : VK} {s : State} {p : Nat} (h : Returned u root s p) :
+    ∃ fuel reqs0 mgt, dependencyManagement u root = some mgt ∧
+      loop u mgt fuel true (initState root reqs0) = .ok (some s) ∧ (p = 1 → reqs0 = []) := by
+  obtain ⟨fuel, h⟩ := h
+  obtain ⟨_, reqs0, h0, hp⟩ := retry_graph _ _ _ _ _ h
+  obtain ⟨mgt, hm, hl⟩ := resolveOnce_ok h0
+  exact ⟨fuel, reqs0, mgt, hm, hl, fun h1 => hp (by omega)⟩
+
+/-- Termination (full). With the fuel the driver supplies (`Universe.fuel` = number of versions of
+the universe + 2) the model never runs out of fuel: every pass of the breadth-first loop pops at most
+one todo element per version of the universe, and there are at most `maxRetries + 1` passes. So
+`Resolve u root u.fuel` is a graph or one of the three errors. -/
+theorem resolve_terminates (u : Universe) (root : VK) : Resolve u root u.fuel ≠ .outOfFuel :=
+  retry_fuel _ _ _
+
+/-! ## M3 — range edges point inside their range -/
+
+/-- M3 (full). Every edge whose requirement is a range points to a version the range matches. -/
+theorem m3_range_edges_inside {u : Universe} {root : VK} {s : State} {p : Nat} (h : Returned u root s p) :
+    ∀ e ∈ s.g.edges, reqKind u e.req = .hard →
+      ∃ v, s.g.vkAt e.dst = some v ∧ reqMatches u e.req v.version = true := by
+  obtain ⟨fuel, reqs0, mgt, _, hl, _⟩ := returned_pass h
+  obtain ⟨⟨_, hx⟩, _, _⟩ := prov_loop hl
+  intro e he hk
+  obtain ⟨first, cur, d, imps, mv, L, _, _, _, _, _, hv, hreq, _, _, hmem, hfm⟩ := (hx.edges e he).ex
+  refine ⟨_, hv, ?_⟩
+  rw [hreq] at hk ⊢
+  exact findMatch_sat hfm _ hmem hk
+
+/-! ## M7 — test / optional / provided only from the root -/
+
+/-- M7 (full). An edge leaving a node other than the root is not test, optional or provided. -/
+theorem m7_root_only_scopes {u : Universe} {root : VK} {s : State} {p : Nat} (h : Returned u root s p) :
+    ∀ e ∈ s.g.edges, e.src ≠ 0 → rootOnly e.typ = false := by
+  obtain ⟨fuel, reqs0, mgt, _, hl, _⟩ := returned_pass h
+  obtain ⟨⟨_, hx⟩, _, _⟩ := prov_loop hl
+  intro e he hsrc
+  obtain ⟨first, cur, d, imps, mv, L, hlog, _, himps, hd, _, _, _, htyp, _, _, _⟩ := (hx.edges e he).ex
+  have hf : first = false := by
+    have := hx.doneFirst _ hlog
+    simp only at this
+    cases first with
+    | false => rfl
+    | true => exact absurd (this.mp rfl) hsrc
+  subst hf
+  obtain ⟨_, imp, _, _, hfil, rfl⟩ := mem_imports himps hd
+  have hro := filterImport_nonfirst hfil
+  rcases htyp with ht | ht
+  · rw [ht]; exact hro
+  · rw [ht]; simpa [toDep] using hro
+
+/-! ## M5 — the root's dependencyManagement overrides transitive versions -/
+
+/-- M5 (full). An edge leaving a non-root node whose artifact key the root manages carries the
+managed version as its requirement. -/
+theorem m5_management_overrides {u : Universe} {root : VK} {s : State} {p : Nat} (h : Returned u root s p) :
+    ∃ mgt, dependencyManagement u root = some mgt ∧
+      ∀ e ∈ s.g.edges, e.src ≠ 0 → ∀ pk v, edgeKey s e = some pk → mgt.lookup pk = some v → e.req = v := by
+  obtain ⟨fuel, reqs0, mgt, hm, hl, _⟩ := returned_pass h
+  obtain ⟨⟨_, hx⟩, _, _⟩ := prov_loop hl
+  refine ⟨mgt, hm, ?_⟩
+  intro e he hsrc pk v hk hlk
+  obtain ⟨first, cur, d, imps, mv, L, hlog, _, _, _, _, hv, hreq, htyp, _, _, _⟩ := (hx.edges e he).ex
+  have hf : first = false := by
+    have := hx.doneFirst _ hlog
+    simp only at this
+    cases first with
+    | false => rfl
+    | true => exact absurd (this.mp rfl) hsrc
+  subst hf
+  have hkey : pk = depKey d := by
+    simp only [edgeKey, hv, Option.map_some, Option.some.injEq] at hk
+    rcases htyp with ht | ht
+    · rw [ht] at hk; exact hk.symm
+    · rw [ht] at hk
+      have := packageKey_withSelector d.name d.typ
+      simp only [withSelector] at this
+      rw [this] at hk; exact hk.symm
+  subst hkey
+  rw [hreq]
+  simp [depVer, managedVersion, hlk]
+
+/-! ## M6 — exclusions -/
+
+/-- The exclusion set in force at node `id`: that of the todo element popped for it. -/
+def ExclAt (s : State) (id : Nat) (x : Option (List Bytes)) : Prop :=
+  ∃ f t, (id, f, t) ∈ s.done ∧ t.exclusions = x
+
+/-- M6, local form (full). (a) every edge leaves a popped element under whose exclusion set the
+target's name is not excluded; (b) a node has one exclusion set; (c) the root's is empty (nil);
+(d) the set of a created node is its parent's merged with the exclusions declared on its creating
+edge. -/
+theorem m6_excluded_not_reached {u : Universe} {root : VK} {s : State} {p : Nat} (h : Returned u root s p) :
+    (∀ e ∈ s.g.edges, ∃ x v, ExclAt s e.src x ∧ s.g.vkAt e.dst = some v ∧ isExcluded x v.name = some false) ∧
+    (∀ id x y, ExclAt s id x → ExclAt s id y → x = y) ∧
+    (∀ x, ExclAt s 0 x → x = none) ∧
+    (∀ c ∈ s.created, ∃ px, ExclAt s c.2.1.src px ∧
+      ExclAt s c.1 (mergeExcl (declaredExclusions c.2.1.typ) px)) := by
+  obtain ⟨fuel, reqs0, mgt, _, hl, _⟩ := returned_pass h
+  obtain ⟨⟨_, hx⟩, _, htodo⟩ := prov_loop hl
+  obtain ⟨_, ht⟩ := tree_loop hl
+  -- two done entries with one id are the same element
+  have huniq : ∀ id f t f' t', (id, f, t) ∈ s.done → (id, f', t') ∈ s.done → t = t' := by
+    intro id f t f' t' h1 h2
+    obtain ⟨i, hi, hgi⟩ := List.getElem_of_mem h1
+    obtain ⟨j, hj, hgj⟩ := List.getElem_of_mem h2
+    have hi' : i < (s.done.map (·.1)).length := by simpa using hi
+    have hj' : j < (s.done.map (·.1)).length := by simpa using hj
+    have heq : (s.done.map (·.1))[i] = (s.done.map (·.1))[j] := by simp [hgi, hgj]
+    have hij : i = j := nodup_getElem_inj ht.doneIds hi' hj' heq
+    subst hij
+    rw [hgi] at hgj
+    cases hgj
+    rfl
+  refine ⟨?_, ?_, ?_, ?_⟩
+  · intro e he
+    obtain ⟨first, cur, d, imps, mv, L, hlog, _, _, _, hex, hv, _, _, _, _, _⟩ := (hx.edges e he).ex
+    exact ⟨cur.exclusions, _, ⟨first, cur, hlog, rfl⟩, hv, hex⟩
+  · intro id x y ⟨f, t, h1, hx1⟩ ⟨f', t', h2, hy1⟩
+    have := huniq _ _ _ _ _ h1 h2
+    subst this
+    rw [← hx1, ← hy1]
+  · intro x ⟨f, t, h1, hx1⟩
+    rw [← hx1]
+    exact ht.rootExcl _ h1 rfl
+  · intro c hc
+    have hcr := ht.crt c hc
+    obtain ⟨f, pt, hp1, hp2⟩ := hcr.excl
+    refine ⟨pt.exclusions, ⟨f, pt, hp1, rfl⟩, ?_⟩
+    -- the created element itself has been popped (todo is empty at the end)
+    rcases ht.popped c hc with hp | ⟨f', hp⟩
+    · rw [htodo] at hp; cases hp
+    · exact ⟨f', c.2.2, hp, hp2⟩
+
+/-- `x ⊆ y` as sets of exclusion patterns. -/
+def ExclSub (x y : Option (List Bytes)) : Prop := ∀ a ∈ x.getD [], a ∈ y.getD []
+
+theorem exclSub_merge_own (own parent : Option (List Bytes)) : ExclSub own (mergeExcl own parent) := by
+  intro a ha
+  cases own with
+  | none => simp at ha
+  | some de => simp only [Option.getD_some] at ha; simp [mergeExcl, ha]
+
+theorem exclSub_merge_parent (own parent : Option (List Bytes)) : ExclSub parent (mergeExcl own parent) := by
+  intro a ha
+  cases own with
+  | none => simpa [mergeExcl] using ha
+  | some de => simp [mergeExcl, ha]
+
+/-- A name a smaller pattern set excludes is never "not excluded" under a larger one. -/
+theorem isExcluded_mono {x y : Option (List Bytes)} (hsub : ExclSub x y) {n : Bytes}
+    (h : isExcluded x n = some true) : isExcluded y n ≠ some false := by
+  cases x with
+  | none => simp [isExcluded] at h
+  | some l =>
+    have hmem : ∀ a, l.contains a = true → ∃ l', y = some l' ∧ l'.contains a = true := by
+      intro a ha
+      have ha' : a ∈ l := by simpa using ha
+      have := hsub a (by simpa using ha')
+      cases y with
+      | none => simp at this
+      | some l' => exact ⟨l', rfl, by simpa using this⟩
+    simp only [isExcluded] at h
+    split at h
+    · rename_i hc
+      obtain ⟨l', rfl, hl'⟩ := hmem _ hc
+      simp only [isExcluded]
+      repeat' split
+      all_goals simp_all
+    · split at h
+      · rename_i hc
+        obtain ⟨l', rfl, hl'⟩ := hmem _ hc
+        simp only [isExcluded]
+        repeat' split
+        all_goals simp_all
+      · split at h
+        · cases h
+        · rename_i grp art hsp
+          simp only [Option.some.injEq, Bool.or_eq_true] at h
+          rcases h with hc | hc
+          · obtain ⟨l', rfl, hl'⟩ := hmem _ hc
+            simp only [isExcluded]
+            repeat' split
+            all_goals simp_all
+          · obtain ⟨l', rfl, hl'⟩ := hmem _ hc
+            simp only [isExcluded]
+            repeat' split
+            all_goals simp_all
+
+/-- A path of creating edges from the root to node `id`. -/
+inductive CreationPath (s : State) : Nat → List Edge → Prop
+  | root : CreationPath s 0 []
+  | step {a id : Nat} {p : List Edge} {c : Nat × Edge × Todo} :
+      CreationPath s a p → c ∈ s.created → c.2.1.src = a → c.1 = id → CreationPath s id (p ++ [c.2.1])
+
+/-- M6, path form (full). An artifact excluded on the creating path of a node is not reached
+from that node: for every edge `e` leaving node `id` and every creating edge `e'` on the path
+from the root to `id`, the exclusions declared on `e'` do not exclude the name of `e`'s target. -/
+theorem m6_excluded_on_path_not_reached {u : Universe} {root : VK} {s : State} {p : Nat}
+    (h : Returned u root s p) :
+    ∀ id path, CreationPath s id path → ∀ e ∈ s.g.edges, e.src = id → ∀ v, s.g.vkAt e.dst = some v →
+      ∀ e' ∈ path, isExcluded (declaredExclusions e'.typ) v.name ≠ some true := by
+  obtain ⟨hedge, huniq, hroot, hinh⟩ := m6_excluded_not_reached h
+  have hpath : ∀ id path, CreationPath s id path → ∀ x, ExclAt s id x →
+      ∀ e' ∈ path, ExclSub (declaredExclusions e'.typ) x := by
+    intro id path hp
+    induction hp with
+    | root => intro x _ e' he'; cases he'
+    | step hprev hc hsrc hid ih =>
+      rename_i a id p c
+      intro x hx e' he'
+      obtain ⟨px, hpx, hcx⟩ := hinh c hc
+      rw [hid] at hcx
+      rw [hsrc] at hpx
+      have hxeq := huniq _ _ _ hx hcx
+      subst hxeq
+      simp only [List.mem_append, List.mem_singleton] at he'
+      rcases he' with he' | rfl
+      · intro b hb
+        exact exclSub_merge_parent _ _ b (ih px hpx e' he' b hb)
+      · exact exclSub_merge_own _ _
+  intro id path hp e he hsrc v hv e' he' hex
+  obtain ⟨x, v', hx, hv', hnot⟩ := hedge e he
+  rw [hv] at hv'
+  cases hv'
+  rw [hsrc] at hx
+  exact isExcluded_mono (hpath id path hp x hx e' he') hex hnot
+
+/-! ## M8 and the tree of creating edges; reachability -/
+
+/-- The creating edges (`s.created`: the edges added together with their target node, the only
+ones that get `dep.Selector`) form a spanning tree: each is an edge of the graph into its node
+from an older node, and every node but the root has one. -/
+theorem created_spanning_tree {u : Universe} {root : VK} {s : State} {p : Nat} (h : Returned u root s p) :
+    (∀ c ∈ s.created, c.2.1 ∈ s.g.edges ∧ c.2.1.dst = c.1 ∧ c.2.1.src < c.1 ∧
+      c.2.1.typ.hasAttr C07Consts.keySelector = true) ∧
+    (∀ id, 0 < id → id < s.g.nodes.length → ∃ c ∈ s.created, c.1 = id) := by
+  obtain ⟨fuel, reqs0, mgt, _, hl, _⟩ := returned_pass h
+  obtain ⟨_, ht⟩ := tree_loop hl
+  exact ⟨fun c hc => ⟨(ht.crt c hc).mem, (ht.crt c hc).dst, (ht.crt c hc).src, (ht.crt c hc).sel⟩, ht.cover⟩
+
+/-- M8 (full). A node created through a declaration of type war, ear or rar
+(`C07Consts.includesDependenciesTypes`) has no outgoing edge. -/
+theorem m8_war_not_traversed {u : Universe} {root : VK} {s : State} {p : Nat} (h : Returned u root s p) :
+    ∀ c ∈ s.created, includesDependencies c.2.1.typ = true → ∀ e ∈ s.g.edges, e.src ≠ c.1 := by
+  obtain ⟨fuel, reqs0, mgt, _, hl, _⟩ := returned_pass h
+  obtain ⟨_, ht⟩ := tree_loop hl
+  intro c hc hi
+  exact ht.sealed c hc (by rw [(ht.crt c hc).incl]; exact hi)
+
+/-- Every node of a returned graph is reachable from the root. -/
+theorem reach_all_nodes {u : Universe} {root : VK} {s : State} {p : Nat} (h : Returned u root s p) :
+    ∀ i, i < s.g.nodes.length → Reach s.g i := by
+  obtain ⟨hcrt, hcover⟩ := created_spanning_tree h
+  intro i
+  induction i using Nat.strongRecOn with
+  | _ i ih =>
+    intro hi
+    by_cases h0 : i = 0
+    · subst h0; exact .root
+    · obtain ⟨c, hc, hci⟩ := hcover i (by omega) hi
+      obtain ⟨hmem, hdst, hsrc, _⟩ := hcrt c hc
+      have := Reach.step (ih c.2.1.src (by omega) (by omega)) hmem rfl
+      rw [hdst, hci] at this
+      exact this
+
+/-- Every node has been popped from the todo queue exactly as one element. -/
+theorem all_nodes_popped {u : Universe} {root : VK} {s : State} {p : Nat} (h : Returned u root s p) :
+    ∀ i, i < s.g.nodes.length → ∃ f t, (i, f, t) ∈ s.done := by
+  obtain ⟨fuel, reqs0, mgt, _, hl, _⟩ := returned_pass h
+  obtain ⟨_, _, htodo⟩ := prov_loop hl
+  obtain ⟨f, ht⟩ := tree_loop hl
+  have hf : f = false := by
+    cases f with
+    | false => rfl
+    | true => have := ht.init rfl; rw [this] at htodo; simp [initState] at htodo
+  subst hf
+  intro i hi
+  by_cases h0 : i = 0
+  · subst h0; exact ht.rootDone rfl
+  · obtain ⟨c, hc, hci⟩ := ht.cover i (by omega) hi
+    rcases ht.popped c hc with hp | ⟨f, hp⟩
+    · rw [htodo] at hp; cases hp
+    · exact ⟨f, c.2.2, by rw [← hci]; exact hp⟩
+
+/-! ## M4 — no declaration is dropped silently -/
+
+/-- M4, first half (full). Every declaration (after the scope filter of `imports`) of every
+traversed node that is not excluded is accounted for: by an edge from that node with the
+declaration's (managed) requirement and type, or by a node error with that requirement. -/
+theorem m4_declarations_accounted {u : Universe} {root : VK} {s : State} {p : Nat} (h : Returned u root s p) :
+    ∃ mgt, dependencyManagement u root = some mgt ∧
+      ∀ x ∈ s.done, x.2.2.includesDependencies = false →
+        ∀ imps, imports u x.2.2.key.vk (optsOf x.2.1) = some imps →
+          ∀ d ∈ imps, isExcluded x.2.2.exclusions d.name = some false → Accounted mgt s x.1 x.2.1 d := by
+  obtain ⟨fuel, reqs0, mgt, hm, hl, _⟩ := returned_pass h
+  exact ⟨mgt, hm, acct_loop hl⟩
+
+/-- M4, converse (full). A node error is recorded only when `findMatch` had no answer: every error
+`x` on node `i` is the (managed) requirement of a non-excluded declaration of the todo element popped
+for `i`, and `findMatch` answered `errNoMatch` on a prefix, containing that requirement, of the
+list finally accumulated for the declaration's artifact key. -/
+theorem m4_errors_only_without_match {u : Universe} {root : VK} {s : State} {p : Nat} (h : Returned u root s p) :
+    ∃ mgt, dependencyManagement u root = some mgt ∧
+      ∀ i, ∀ x ∈ s.g.errAt i, ErrProv u mgt s.done s i x := by
+  obtain ⟨fuel, reqs0, mgt, hm, hl, _⟩ := returned_pass h
+  exact ⟨mgt, hm, errprov_loop hl⟩
+
+/-- `n + 1` consecutive passes, each fed the requirements of the previous one, all ended in
+`errIncompatible`. -/
+def IncompatibleChain (u : Universe) (root : VK) (fuel : Nat) : Nat → ReqMap → Prop
+  | 0, r => ∃ r', resolveOnce u root r fuel = .error (.incompatible, r')
+  | n + 1, r => ∃ r', resolveOnce u root r fuel = .error (.incompatible, r') ∧ IncompatibleChain u root fuel n r'
+
+theorem retry_incompatible {u : Universe} {root : VK} {fuel : Nat} :
+    ∀ (n : Nat) (reqs : ReqMap) (passes : Nat), retry u root fuel n reqs passes = .err .incompatible →
+      IncompatibleChain u root fuel n reqs := by
+  intro n
+  induction n with
+  | zero =>
+    intro reqs passes h
+    unfold retry at h
+    split at h
+    · cases h
+    · cases h
+    · rename_i r' hr; exact ⟨r', hr⟩
+    · rename_i e r' hne hr
+      cases h
+      exact (hne rfl).elim
+  | succ n ih =>
+    intro reqs passes h
+    unfold retry at h
+    split at h
+    · cases h
+    · cases h
+    · rename_i r' hr; exact ⟨r', hr, ih _ _ h⟩
+    · rename_i e r' hne hr
+      cases h
+      exact (hne rfl).elim
+
+/-- M4, second half (full). The incompatible-requirements error is returned only after the
+first pass and all `maxRetries` retries ended in it. -/
+theorem m4_incompatible_only_after_retries {u : Universe} {root : VK} {fuel : Nat}
+    (h : Resolve u root fuel = .err .incompatible) :
+    IncompatibleChain u root fuel C07Consts.maxRetries [] :=
+  retry_incompatible _ _ _ h
+
+/-! ## M2 — nearest declaration wins -/
+
+/-- M2 relative to the accumulated requirement lists (full). The target of an edge is what
+`findMatch` answers on a prefix of the list finally accumulated for the edge's artifact key, and
+when that list holds only soft requirements the target is the FIRST of them. -/
+theorem m2_soft_requirements_first {u : Universe} {root : VK} {s : State} {p : Nat} (h : Returned u root s p) :
+    ∀ e ∈ s.g.edges, ∀ pk, edgeKey s e = some pk →
+      (∃ L v, L <+: s.requirements.get pk ∧ e.req ∈ L ∧ s.g.vkAt e.dst = some v ∧ findMatch u v.name L = .ok v.version) ∧
+      ((∀ r ∈ s.requirements.get pk, reqKind u r = .soft) →
+        ∃ r0 rest, s.requirements.get pk = r0 :: rest ∧ versionAt s e.dst = some r0) := by
+  obtain ⟨fuel, reqs0, mgt, _, hl, _⟩ := returned_pass h
+  obtain ⟨⟨_, hx⟩, _, _⟩ := prov_loop hl
+  intro e he pk hk
+  obtain ⟨first, cur, d, imps, mv, L, _, _, _, _, _, hv, hreq, htyp, hpre, hmem, hfm⟩ := (hx.edges e he).ex
+  have hkey : pk = depKey d := by
+    simp only [edgeKey, hv, Option.map_some, Option.some.injEq] at hk
+    rcases htyp with ht | ht
+    · rw [ht] at hk; exact hk.symm
+    · rw [ht] at hk
+      have := packageKey_withSelector d.name d.typ
+      simp only [withSelector] at this
+      rw [this] at hk; exact hk.symm
+  subst hkey
+  refine ⟨⟨L, _, hpre, by rw [hreq]; exact hmem, hv, hfm⟩, ?_⟩
+  intro hsoft
+  obtain ⟨t, ht⟩ := hpre
+  cases L with
+  | nil => cases hmem
+  | cons r0 rest =>
+    have hall : ∀ r ∈ r0 :: rest, reqKind u r = .soft := by
+      intro r hr; exact hsoft r (by rw [← ht]; exact List.mem_append_left _ hr)
+    have := findMatch_all_soft_ok hall hfm
+    subst this
+    exact ⟨mv, rest ++ t, by rw [← ht]; simp, by simp [versionAt, hv]⟩
+
+/-- The graph was returned by the first pass: no retry after `errIncompatible`. -/
+def FirstPass (passes : Nat) : Prop := passes = 1
+
+/-- Full statement of M2 on a returned graph (decidable): for every edge `e`, if all edges to
+`e`'s artifact key carry soft requirements, `e` points to the version demanded by the FIRST edge
+with that key (edges are in breadth-first discovery order: the nearest declaration). -/
+def m2 (u : Universe) (s : State) : Bool :=
+  s.g.edges.all fun e =>
+    match s.g.vkAt e.dst with
+    | none => true
+    | some v =>
+      let same := s.g.edges.filter (edgeHasKey s.g (packageKeyForDependency v.name e.typ))
+      !(same.all fun e' => reqKind u e'.req == .soft) ||
+        (match same.head? with
+         | some e0 => v.version == e0.req
+         | none => true)
+
+def M2_full : Prop := ∀ u root s p, Returned u root s p → m2 u s = true
+
+/-- M2, first pass, relative to the accumulated lists (hypothesis `FirstPass`). When the
+list accumulated for an artifact key holds only soft requirements, every edge with that key points to
+the version demanded by the first edge with that key. -/
+theorem m2_nearest_partial {u : Universe} {root : VK} {s : State} {p : Nat} (h : Returned u root s p)
+    (hp : FirstPass p) :
+    ∀ pk, (∀ r ∈ s.requirements.get pk, reqKind u r = .soft) →
+      ∀ e ∈ s.g.edges, edgeKey s e = some pk →
+        ∃ e0, s.g.edges.find? (edgeHasKey s.g pk) = some e0 ∧ versionAt s e.dst = some e0.req := by
+  obtain ⟨fuel, reqs0, mgt, _, hl, h1⟩ := returned_pass h
+  have := h1 hp
+  subst this
+  have hn := near_loop hl
+  intro pk hsoft e he hk
+  obtain ⟨_, hfirst⟩ := m2_soft_requirements_first h e he pk hk
+  obtain ⟨r0, rest, hget, hver⟩ := hfirst hsoft
+  obtain ⟨e0, hf, hr⟩ := hn.head pk r0 rest hget (hsoft r0 (by rw [hget]; simp))
+  exact ⟨e0, hf, by rw [hr]; exact hver⟩
+
+theorem head?_filter_eq_find? {α : Type} (l : List α) (q : α → Bool) : (l.filter q).head? = l.find? q := by
+  induction l with
+  | nil => rfl
+  | cons a l ih =>
+    by_cases h : q a = true
+    · simp [List.filter, List.find?, h]
+    · have h' : q a = false := by simpa using h
+      simp [List.filter, List.find?, h', ih]
+
+/-- M2 (partial: hypothesis `FirstPass`) — the full statement `m2` holds for every graph returned
+by the first pass: an artifact key all of whose edges carry soft requirements is resolved to the
+version demanded by the first edge with that key. -/
+theorem m2_partial {u : Universe} {root : VK} {s : State} {p : Nat} (h : Returned u root s p)
+    (hp : FirstPass p) : m2 u s = true := by
+  obtain ⟨fuel, reqs0, mgt, _, hl, h1⟩ := returned_pass h
+  have hr0 := h1 hp
+  subst hr0
+  have hn := near_loop hl
+  simp only [m2, List.all_eq_true]
+  intro e he
+  split
+  · rfl
+  · rename_i v hv
+    simp only [Bool.or_eq_true, Bool.not_eq_true']
+    by_cases hall : ((s.g.edges.filter (edgeHasKey s.g (packageKeyForDependency v.name e.typ))).all
+        fun e' => reqKind u e'.req == .soft) = true
+    · refine .inr ?_
+      -- no hard (and no unparsable) requirement was accumulated for the key
+      have hsoft : ∀ r ∈ s.requirements.get (packageKeyForDependency v.name e.typ), reqKind u r = .soft := by
+        intro r hr
+        cases hk : reqKind u r with
+        | soft => rfl
+        | bad => exact absurd hk (hn.noBad _ r hr)
+        | hard =>
+          obtain ⟨e', he', hk', hh'⟩ := hn.hardEdge _ ⟨r, hr, hk⟩
+          simp only [List.all_eq_true, List.mem_filter] at hall
+          have := hall e' ⟨he', hk'⟩
+          rw [hh'] at this
+          cases this
+      have hkey : edgeKey s e = some (packageKeyForDependency v.name e.typ) := by simp [edgeKey, hv]
+      obtain ⟨e0, hf, hver⟩ := m2_nearest_partial h hp _ hsoft e he hkey
+      rw [head?_filter_eq_find?, hf]
+      simp only [versionAt, hv, Option.map_some, Option.some.injEq] at hver
+      simp [hver]
+    · exact .inl (by simpa using hall)
+
+/-! ## M1 — one version per artifact key -/
+
+/-- Full statement of M1 on a returned graph (decidable): two edges with one artifact key point
+to one version, and an edge with the root's own (default) key points to the root's version. -/
+def m1 (s : State) : Bool :=
+  (s.g.edges.all fun e1 => s.g.edges.all fun e2 =>
+    match s.g.vkAt e1.dst, s.g.vkAt e2.dst with
+    | some v1, some v2 =>
+      !(packageKeyForDependency v1.name e1.typ == packageKeyForDependency v2.name e2.typ) || v1.version == v2.version
+    | _, _ => true) &&
+  (s.g.edges.all fun e =>
+    match s.g.vkAt e.dst, s.g.vkAt 0 with
+    | some v, some r => !(packageKeyForDependency v.name e.typ == defaultKey r.name) || v.version == r.version
+    | _, _ => true)
+
+def M1_full : Prop := ∀ u root s p, Returned u root s p → m1 s = true
+
+/-- M1 (partial: hypothesis `DefaultKeys`, every declaration of the universe has the default
+classifier and type). Then no two nodes of a returned graph share a name. -/
+theorem m1_partial {u : Universe} {root : VK} {s : State} {p : Nat} (hu : DefaultKeys u = true)
+    (h : Returned u root s p) :
+    m1 s = true ∧
+    (∀ i j vi vj, s.g.vkAt i = some vi → s.g.vkAt j = some vj → vi.name = vj.name → i = j) := by
+  obtain ⟨fuel, reqs0, mgt, _, hl, _⟩ := returned_pass h
+  have hq := uniq_loop hu hl
+  refine ⟨?_, hq.names⟩
+  simp only [m1, Bool.and_eq_true, List.all_eq_true]
+  refine ⟨?_, ?_⟩
+  · intro e1 _ e2 _
+    split
+    · rename_i v1 v2 h1 h2
+      by_cases hk : packageKeyForDependency v1.name e1.typ = packageKeyForDependency v2.name e2.typ
+      · have hn : v1.name = v2.name := congrArg PackageKey.name hk
+        have := hq.names _ _ _ _ h1 h2 hn
+        rw [this, h2] at h1
+        cases h1
+        simp
+      · simp [hk]
+    · rfl
+  · intro e _
+    split
+    · rename_i v r h1 h2
+      by_cases hk : packageKeyForDependency v.name e.typ = defaultKey r.name
+      · have hn : v.name = r.name := congrArg PackageKey.name hk
+        have := hq.names _ _ _ _ h1 h2 hn
+        rw [this, h2] at h1
+        cases h1
+        simp
+      · simp [hk]
+    · rfl
+
+/-! ## Refutations of the full M1 and M2 (witnesses of the known findings) -/
+
+namespace Witness
+def ga : Bytes := [103, 58, 97]
+def gb : Bytes := [103, 58, 98]
+def gc : Bytes := [103, 58, 99]
+def gj : Bytes := [103, 58, 106]
+def gk : Bytes := [103, 58, 107]
+def gr : Bytes := [103, 58, 114]
+def gy : Bytes := [103, 58, 121]
+def v1 : Bytes := [49]
+def v10 : Bytes := [49, 46, 48]
+def v20 : Bytes := [50, 46, 48]
+def v30 : Bytes := [51, 46, 48]
+def r2030 : Bytes := [91, 50, 46, 48, 44, 51, 46, 48, 93]     -- "[2.0,3.0]"
+def r20 : Bytes := [91, 50, 46, 48, 93]                        -- "[2.0]"
+def reg : DepType := { mask := 0, attrs := [] }
+def tests : DepType := { mask := 0, attrs := [(4, [116, 101, 115, 116, 115])] }   -- MavenClassifier "tests"
+
+/-- F-C07-classifier (props/C07.known.json): r@1.0 → a@1.0, b@1.0; b@1.0 → (tests) a@1.0, c@1.0;
+c@1.0 → (tests) a@[2.0,3.0]; a has 1.0, 2.0, 3.0. -/
+def classifierU : Universe :=
+  { pkgs := [
+      { name := ga, versions := [⟨v10, true, []⟩, ⟨v20, true, []⟩, ⟨v30, true, []⟩] },
+      { name := gb, versions := [⟨v10, true, [⟨ga, v10, tests⟩, ⟨gc, v10, reg⟩]⟩] },
+      { name := gc, versions := [⟨v10, true, [⟨ga, r2030, tests⟩]⟩] },
+      { name := gr, versions := [⟨v10, true, [⟨ga, v10, reg⟩, ⟨gb, v10, reg⟩]⟩] }],
+    reqs := [⟨v10, .soft, []⟩, ⟨r2030, .hard, [v20, v30]⟩] }
+
+/-- F-C07-stale-req (props/C07.known.json): r@1 → j@1.0, a@1.0; j@1.0 → y@1.0; y@1.0 → k@1.0;
+a@1.0 → b@1.0 → c@1.0 → k@2.0, j@[2.0]; j has 1.0, 2.0; k has 1.0, 2.0. -/
+def staleU : Universe :=
+  { pkgs := [
+      { name := ga, versions := [⟨v10, true, [⟨gb, v10, reg⟩]⟩] },
+      { name := gb, versions := [⟨v10, true, [⟨gc, v10, reg⟩]⟩] },
+      { name := gc, versions := [⟨v10, true, [⟨gk, v20, reg⟩, ⟨gj, r20, reg⟩]⟩] },
+      { name := gj, versions := [⟨v10, true, [⟨gy, v10, reg⟩]⟩, ⟨v20, true, []⟩] },
+      { name := gk, versions := [⟨v10, true, []⟩, ⟨v20, true, []⟩] },
+      { name := gr, versions := [⟨v1, true, [⟨gj, v10, reg⟩, ⟨ga, v10, reg⟩]⟩] },
+      { name := gy, versions := [⟨v10, true, [⟨gk, v10, reg⟩]⟩] }],
+    reqs := [⟨v10, .soft, []⟩, ⟨v20, .soft, []⟩, ⟨r20, .hard, [v20]⟩] }
+
+/-- evaluate a decidable graph predicate on what `Resolve` returns -/
+def onGraph (r : Result) (f : State → Bool) : Bool :=
+  match r with
+  | .graph s _ => f s
+  | _ => true
+
+def passesOf (r : Result) : Nat :=
+  match r with
+  | .graph _ p => p
+  | _ => 0
+end Witness
+
+open Witness in
+/-- M1 fails on the unchanged code (F-C07-classifier): artifact key (g:a, tests) is resolved to
+1.0 and to 3.0 in one graph, returned by the first pass. -/
+theorem m1_false : ¬ M1_full := by
+  intro h
+  have key : ∀ r, r = Resolve classifierU ⟨gr, v10⟩ classifierU.fuel → onGraph r m1 = true := by
+    intro r hr
+    cases r with
+    | graph s p => exact h _ _ s p ⟨_, hr.symm⟩
+    | err e => rfl
+    | outOfFuel => rfl
+  exact absurd (key _ rfl) (by decide)
+
+open Witness in
+/-- M2 fails on the unchanged code (F-C07-stale-req): the only edge to g:k asks for 2.0 (a soft
+requirement; 2.0 exists) and points to 1.0, in a graph returned after one retry. -/
+theorem m2_false : ¬ M2_full := by
+  intro h
+  have key : ∀ r, r = Resolve staleU ⟨gr, v1⟩ staleU.fuel → onGraph r (m2 staleU) = true := by
+    intro r hr
+    cases r with
+    | graph s p => exact h _ _ s p ⟨_, hr.symm⟩
+    | err e => rfl
+    | outOfFuel => rfl
+  exact absurd (key _ rfl) (by decide)
+
+/-! ## Non-vacuity -/
+
+open Witness in
+/-- The classifier witness is returned by the first pass with five nodes: `Returned` and
+`FirstPass` are inhabited, and the witness lies outside `DefaultKeys`. -/
+example : passesOf (Resolve classifierU ⟨gr, v10⟩ classifierU.fuel) = 1 ∧
+    onGraph (Resolve classifierU ⟨gr, v10⟩ classifierU.fuel) (fun s => s.g.nodes.length == 5) = true ∧
+    DefaultKeys classifierU = false := by decide
+
+open Witness in
+/-- The stale-requirement universe satisfies `DefaultKeys`; its graph needs two passes, has six
+nodes and satisfies M1 (as `m1_partial` says it must). -/
+example : DefaultKeys staleU = true ∧ passesOf (Resolve staleU ⟨gr, v1⟩ staleU.fuel) = 2 ∧
+    onGraph (Resolve staleU ⟨gr, v1⟩ staleU.fuel) (fun s => s.g.nodes.length == 6 && m1 s) = true := by decide
+
+open Witness in
+/-- A first-pass graph with a range edge, a managed version and an exclusion (hypotheses of M3, M5,
+M6 met non-trivially): r@1.0 manages k→2.0, depends on c@1.0 excluding g:j; c@1.0 → k@1.0 (managed to
+2.0), j@[2.0] (excluded), y@[2.0] (a range edge). -/
+example :
+    let u : Universe :=
+      { pkgs := [
+          { name := gc, versions := [⟨v10, true, [⟨gk, v10, reg⟩, ⟨gj, r20, reg⟩, ⟨gy, r20, reg⟩]⟩] },
+          { name := gj, versions := [⟨v20, true, []⟩] },
+          { name := gk, versions := [⟨v10, true, []⟩, ⟨v20, true, []⟩] },
+          { name := gy, versions := [⟨v20, true, []⟩] },
+          { name := gr, versions := [⟨v10, true,
+              [⟨gk, v20, { mask := 0, attrs := [(6, [109, 97, 110, 97, 103, 101, 109, 101, 110, 116])] }⟩,
+               ⟨gc, v10, { mask := 0, attrs := [(9, gj)] }⟩]⟩] }],
+        reqs := [⟨v10, .soft, []⟩, ⟨v20, .soft, []⟩, ⟨r20, .hard, [v20]⟩] }
+    passesOf (Resolve u ⟨gr, v10⟩ u.fuel) = 1 ∧
+    onGraph (Resolve u ⟨gr, v10⟩ u.fuel) (fun s =>
+      s.g.nodes.length == 4 && s.g.edges.length == 3 &&
+      s.g.edges.any (fun e => reqKind u e.req == .hard) &&
+      s.g.nodes.all (fun n => n.vk.name != gj)) = true := by decide
+
+/-! ## Ties to the generated constants -/
+
+/-- The constants the model is written against have the values the statements above were read
+with: 100 retries; war/ear/rar; "provided"; "management"; "jar"; the exclusion wildcards; the
+attribute keys of `dep`. A change of any of them in /repo breaks this theorem. -/
+theorem consts_tie :
+    C07Consts.maxRetries = 100 ∧
+    C07Consts.includesDependenciesTypes = [[101, 97, 114], [119, 97, 114], [114, 97, 114]] ∧
+    C07Consts.scopeProvided = [112, 114, 111, 118, 105, 100, 101, 100] ∧
+    C07Consts.originManagement = [109, 97, 110, 97, 103, 101, 109, 101, 110, 116] ∧
+    C07Consts.defaultArtifactType = [106, 97, 114] ∧
+    C07Consts.exclAll = [42, 58, 42] ∧ C07Consts.nameSep = [58] ∧
+    C07Consts.exclGroupSuffix = [58, 42] ∧ C07Consts.exclArtifactPrefix = [42, 58] ∧
+    C07Consts.exclusionSeparators = [124, 44] ∧
+    C07Consts.keyOpt = -2 ∧ C07Consts.keyTest = -4 ∧ C07Consts.keyScope = 3 ∧
+    C07Consts.keyClassifier = 4 ∧ C07Consts.keyArtifactType = 5 ∧ C07Consts.keyOrigin = 6 ∧
+    C07Consts.keyExclusions = 9 ∧ C07Consts.keySelector = 11 := by decide
+
 end DepsDev.Props.C07
+
+/-
+TIES (DESIGN 3.3) — what each theorem rests on.
+
+all theorems:
+  model: Resolve.Maven.{Resolve, retry, resolveOnce, loop, processDeps, processDep, findMatch, scan, pick,
+         matchesAll, imports, filterImport, optsOf, toDep, declaredExclusions, parseExclusions, fieldsAux,
+         dependencyManagement, managedVersion, depKey, depVer, reqsAfter, curIdOf, childTodo, mergeExcl,
+         isExcluded, splitName, includesDependencies, packageKeyForDependency, DepType.getAttr/hasAttr/setAttr,
+         Graph.addNode/addEdge/addError, clientVersion/clientVersions/clientRequirements, reqKind, reqMatches,
+         initState, rootKey}                                              (Model/Resolve/Maven.lean)
+  tie:   correspondence stream `C07 resolve` (every op line: canonical Go result = canonical model result,
+         including the number of passes); the ghost fields State.done / State.created / the final
+         State.requirements are NOT observed by the correspondence (they are defined by the model run).
+  Gen:   C07Consts.{maxRetries, keyOpt, keyTest, keyScope, keyClassifier, keyArtifactType, keyOrigin,
+         keyExclusions, keySelector, includesDependenciesTypes, scopeProvided, originManagement,
+         defaultArtifactType, exclAll, nameSep, exclGroupSuffix, exclArtifactPrefix, exclusionSeparators}
+         (consts_tie pins their values; Proofs/C07Attr.lean needs keySelector different from the keys read).
+  data:  Universe.reqs (soft / hard / unparsable, and which strings a range matches) and the order of
+         Package.versions are INPUTS computed by the harness with the real semver / SortVersions;
+         "is a range" and "inside the range" in M2, M3 mean these tables (C03/C12 own their meaning).
+m1_false, m2_false: evaluation (`decide`) of Resolve on Witness.classifierU / Witness.staleU, which are the
+  decoded op lines of props/C07.known.json (checked equal once with the driver's parser).
+-/
